@@ -12,7 +12,29 @@ extern "C" {
     fn waitpid(pid: i32, status: *mut i32, options: i32) -> i32;
     fn _exit(code: i32) -> !;
     fn dup2(a: i32, b: i32) -> i32;
+    fn poll(fds: *mut PollFd, n: u64, timeout_ms: i32) -> i32;
+    fn kill(pid: i32, sig: i32) -> i32;
     fn open(path: *const u8, flags: i32, ...) -> i32;
+}
+
+#[repr(C)]
+struct PollFd {
+    fd: i32,
+    events: i16,
+    revents: i16,
+}
+
+/// Watchdog: a child that writes nothing for this long is killed and reported
+/// as hung. Only a hang (an endless loop introduced into the library) ever
+/// meets it; ordinary chunks finish in well under a second.
+pub const SILENCE_LIMIT_MS: i32 = 120_000;
+/// After the first hang in this process the limit drops (the verdict is
+/// already "violation"; the remaining runs only add detail).
+pub const SILENCE_LIMIT_AFTER_HANG_MS: i32 = 8_000;
+static HANGS: std::sync::atomic::AtomicU32 = std::sync::atomic::AtomicU32::new(0);
+
+pub fn hangs_seen() -> u32 {
+    HANGS.load(std::sync::atomic::Ordering::Relaxed)
 }
 
 #[derive(Clone, Copy, Debug, PartialEq, Eq)]
@@ -24,6 +46,8 @@ pub enum Status {
 pub struct ChildOutcome {
     pub out: Vec<u8>,
     pub status: Status,
+    /// killed by the watchdog after `SILENCE_LIMIT_MS` without output
+    pub hung: bool,
 }
 
 pub fn write_all(fd: i32, mut data: &[u8]) {
@@ -70,15 +94,32 @@ pub fn fork_run(f: impl FnOnce(i32)) -> ChildOutcome {
     unsafe { close(fds[1]) };
     let mut out = Vec::new();
     let mut buf = [0u8; 65536];
+    let mut hung = false;
+    let started = std::time::Instant::now();
     loop {
+        // absolute cap as well: a child that keeps producing output forever
+        if started.elapsed().as_secs() > 900 || out.len() > (1 << 30) {
+            hung = true;
+            HANGS.fetch_add(1, std::sync::atomic::Ordering::Relaxed);
+            unsafe { kill(pid, 9) };
+            break;
+        }
+        let mut pfd = PollFd { fd: fds[0], events: 1 /* POLLIN */, revents: 0 };
+        let limit = if hangs_seen() == 0 { SILENCE_LIMIT_MS } else { SILENCE_LIMIT_AFTER_HANG_MS };
+        let ready = unsafe { poll(&mut pfd, 1, limit) };
+        if ready == 0 {
+            hung = true;
+            HANGS.fetch_add(1, std::sync::atomic::Ordering::Relaxed);
+            unsafe { kill(pid, 9) };
+            break;
+        }
+        if ready < 0 {
+            continue; // EINTR
+        }
         let n = unsafe { read(fds[0], buf.as_mut_ptr(), buf.len()) };
         if n > 0 {
             out.extend_from_slice(&buf[..n as usize]);
-        } else if n == 0 {
-            break;
         } else {
-            // EINTR and friends: retry a bounded number of times is not
-            // needed here — no signal handlers are installed
             break;
         }
     }
@@ -86,7 +127,7 @@ pub fn fork_run(f: impl FnOnce(i32)) -> ChildOutcome {
     let mut st = 0i32;
     unsafe { waitpid(pid, &mut st, 0) };
     let status = if st & 0x7f == 0 { Status::Exited((st >> 8) & 0xff) } else { Status::Signaled(st & 0x7f) };
-    ChildOutcome { out, status }
+    ChildOutcome { out, status, hung }
 }
 
 pub fn signal_name(sig: i32) -> String {
